@@ -189,6 +189,7 @@ def check_access(spec):
                 queue = []
             expect_r0 = 0
             n_chunks = 0
+            held = []      # every block handed out is kept, as `list(iterator)` or np.vstack would do
             stream = iter(it)
             while True:
                 try:
@@ -208,6 +209,7 @@ def check_access(spec):
                 if (r0, r1) != want:
                     raise Violation('chunk_bounds', dict(ctx, got=[r0, r1], want=list(want)))
                 _same('chunk', dict(ctx, r0=r0, r1=r1), chunk, x[r0:r1])
+                held.append((chunk, r0, r1))
                 info['chunks_compared'] += 1
                 expect_r0 = r1
                 if spec['order'] == 'interleaved' and queue:
@@ -223,6 +225,11 @@ def check_access(spec):
             for op in queue:
                 _do_op(it, op, x, ctx)
                 info['random_accesses'] += 1
+            # the rows delivered earlier must still hold their values after every later read
+            # (a block that aliases an internal buffer would have been overwritten by now)
+            for chunk, r0, r1 in held:
+                _same('block_changed_after_later_reads', dict(ctx, r0=r0, r1=r1), chunk, x[r0:r1])
+            del held
             del stream
             del it
     # ---- classes
